@@ -286,6 +286,7 @@ def run_check(name, tier):
     samples = []
     digest = hashlib.sha256()
     survey, survey_ex = {}, {}
+    raw_seen = set()
     for r in results:
         digest.update(str(r.get("digest")).encode())
         for k, v in r.get("faults", {}).items():
@@ -298,6 +299,8 @@ def run_check(name, tier):
             discarded += 1
         if r.get("nontrivial") is not None:
             nontrivial.add(jdump(r["nontrivial"]))
+        for x in r.get("nontrivial_list", ()):
+            nontrivial.add(x)
         if r["i"] < 3 and "case" in r:
             samples.append({"run": r["i"], "case": r["case"], "outcome": r.get("outcome")})
         if r.get("violations") and os.environ.get("VERIF_SURVEY"):
@@ -310,13 +313,15 @@ def run_check(name, tier):
             unknown, known = classify(r["violations"], findings)
             for fid, v in known:
                 known_seen[fid] = known_seen.get(fid, 0) + 1
-            if unknown and len(reported) < 5:
+            raw_sig = (unknown[0]["property"], unknown[0]["oracle"], jdump(unknown[0]["site"])) if unknown else None
+            if unknown and len(reported) < 5 and raw_sig not in raw_seen and len(raw_seen) < 12:
+                raw_seen.add(raw_sig)
                 target = unknown[0]
                 small, v, sruns = shrink(name, r["case"], target, findings)
                 sres = _run_one(name, small)
-                path = write_replay(name, v["property"], master, r["i"], small, v, sres.get("digest"))
                 sig = (v["property"], v["oracle"], jdump(v["site"]))
                 if sig not in [x[0] for x in reported]:
+                    path = write_replay(name, v["property"], master, r["i"], small, v, sres.get("digest"))
                     reported.append((sig, path))
                     print("VIOLATION property=%s replay=%s" % (v["property"], path))
                     print("  oracle=%s site=%s\n  %s\n  (minimised in %d runs from run %d)" % (
